@@ -62,16 +62,38 @@ impl ExponentialBackoff {
     }
 }
 
+/// Computes `initial * multiplier^attempt`, capped at `max` (or `Duration::MAX`).
+///
+/// Never panics: huge attempt numbers and products that overflow `Duration` (or are not
+/// finite) saturate at the cap instead.
+fn exponential_interval(
+    initial: Duration,
+    multiplier: f64,
+    attempt: usize,
+    max: Option<Duration>,
+) -> Duration {
+    let cap = max.unwrap_or(Duration::MAX);
+    if initial.is_zero() {
+        return Duration::ZERO;
+    }
+    // `attempt as i32` would wrap around for attempts beyond i32::MAX
+    let exponent = i32::try_from(attempt).unwrap_or(i32::MAX);
+    let secs = initial.as_secs_f64() * multiplier.powi(exponent);
+    if secs.is_nan() || secs >= cap.as_secs_f64() {
+        cap
+    } else {
+        Duration::from_secs_f64(secs.max(0.0)).min(cap)
+    }
+}
+
 impl IntervalFunction for ExponentialBackoff {
     fn next_interval(&self, attempt: usize) -> Duration {
-        let multiplier = self.multiplier.powi(attempt as i32);
-        let interval = self.initial_interval.mul_f64(multiplier);
-
-        if let Some(max) = self.max_interval {
-            interval.min(max)
-        } else {
-            interval
-        }
+        exponential_interval(
+            self.initial_interval,
+            self.multiplier,
+            attempt,
+            self.max_interval,
+        )
     }
 }
 
@@ -119,20 +141,22 @@ impl ExponentialRandomBackoff {
         let min = duration.as_secs_f64() - delta;
         let max = duration.as_secs_f64() + delta;
         let randomized = rng.random_range(min..=max);
-        Duration::from_secs_f64(randomized.max(0.0))
+        if randomized >= Duration::MAX.as_secs_f64() {
+            Duration::MAX
+        } else {
+            Duration::from_secs_f64(randomized.max(0.0))
+        }
     }
 }
 
 impl IntervalFunction for ExponentialRandomBackoff {
     fn next_interval(&self, attempt: usize) -> Duration {
-        let multiplier = self.multiplier.powi(attempt as i32);
-        let interval = self.initial_interval.mul_f64(multiplier);
-
-        let capped = if let Some(max) = self.max_interval {
-            interval.min(max)
-        } else {
-            interval
-        };
+        let capped = exponential_interval(
+            self.initial_interval,
+            self.multiplier,
+            attempt,
+            self.max_interval,
+        );
 
         self.randomize(capped)
     }
